@@ -208,7 +208,13 @@ def judge(res, results):
         if ml is not None:
             res.programs += 1
             if il != ml: res.disagree(c.line[:400], il[:300], ml[:300], 'StaticResourceController / lookup')
-        if r['head'].startswith(('panic', 'abort')): continue
+        if r['head'].startswith(('panic', 'abort')):
+            # no answer at all.  Why the server must not panic is C04's; that a file the documented lookup selects was NOT returned is this property's
+            if c.note != 'model-only' and c.entry != 'preq' and c.method == 'GET':
+                sp = X.spec_checked(c.tree, c.target.encode('utf-8', 'surrogateescape'))
+                if sp['kind'] == 'hit' and not sp['variant'] and not getattr(c.tree, 'cwd_refused', False) and not K.fragment_has_qmark(c.target.encode('utf-8', 'surrogateescape')):
+                    res.fail('lookup-miss:no-answer', c.line[:300], r['head'][:200], None, f'C02: GET {c.target[:200]!r} should serve {sp["rel"][:200]!r}; the handler ended without an answer: {r["head"][:120]}')
+            continue
         if c.note == 'model-only':
             res.count('not judged: ' + c.entry + ' request outside the statement (conditional header, malformed or cut request)')
             continue
